@@ -331,12 +331,11 @@ func (e *evalEnv) evalBool(ex ast.Expr) *Term {
 func (e *evalEnv) coerce(a, b Value) (Value, Value) {
 	// adapt untyped constants to the other operand's type
 	if a.T == untypedInt && b.T != untypedInt && isInteger(b.T) {
-		a = Value{T: b.T, L: []*Term{e.x.C.Resize(a.L[0], b.L[0].Sort.W, true)}}
+		a = Value{T: b.T, L: []*Term{e.x.C.litTo(a.L[0], b.L[0].Sort)}}
 	} else if b.T == untypedInt && a.T != untypedInt && isInteger(a.T) {
-		b = Value{T: a.T, L: []*Term{e.x.C.Resize(b.L[0], a.L[0].Sort.W, true)}}
+		b = Value{T: a.T, L: []*Term{e.x.C.litTo(b.L[0], a.L[0].Sort)}}
 	} else if a.T == untypedInt && b.T == untypedInt {
-		a.T, b.T = types.Typ[types.Int], types.Typ[types.Int]
-		return a, b
+		return e.asInt(a), e.asInt(b)
 	}
 	return a, b
 }
@@ -541,7 +540,7 @@ func (e *evalEnv) eval(ex ast.Expr) Value {
 
 func (e *evalEnv) asInt(v Value) Value {
 	if v.T == untypedInt {
-		v.T = types.Typ[types.Int]
+		return Value{T: types.Typ[types.Int], L: []*Term{e.x.C.litTo(v.L[0], IdxSort)}}
 	}
 	return v
 }
@@ -725,7 +724,7 @@ func (e *evalEnv) evalCall(n *ast.CallExpr) Value {
 				if v.T == untypedInt {
 					v.T = types.Typ[types.Int]
 					if isInteger(t) {
-						return Value{T: t, L: []*Term{c.Resize(v.L[0], intWidth(t.Underlying().(*types.Basic)), true)}}
+						return Value{T: t, L: []*Term{c.litTo(v.L[0], LayoutOf(t).Leaves[0].Sort)}}
 					}
 				}
 				if types.Identical(v.T.Underlying(), t.Underlying()) {
@@ -741,7 +740,7 @@ func (e *evalEnv) evalCall(n *ast.CallExpr) Value {
 					args[i] = e.eval(a)
 					pt := fn.Signature.Params().At(i).Type()
 					if args[i].T == untypedInt {
-						args[i] = Value{T: pt, L: []*Term{c.Resize(args[i].L[0], LayoutOf(pt).Leaves[0].Sort.W, true)}}
+						args[i] = Value{T: pt, L: []*Term{c.litTo(args[i].L[0], LayoutOf(pt).Leaves[0].Sort)}}
 					}
 					args[i].T = pt
 				}
@@ -770,7 +769,7 @@ func (e *evalEnv) evalCall(n *ast.CallExpr) Value {
 				av := e.eval(a)
 				pt := fn.Signature.Params().At(i).Type()
 				if av.T == untypedInt {
-					av = Value{T: pt, L: []*Term{c.Resize(av.L[0], LayoutOf(pt).Leaves[0].Sort.W, true)}}
+					av = Value{T: pt, L: []*Term{c.litTo(av.L[0], LayoutOf(pt).Leaves[0].Sort)}}
 				}
 				av.T = pt
 				args = append(args, av)
